@@ -48,7 +48,7 @@ def union_case(draw):
     data = draw(st.binary(min_size=size, max_size=size))
     ops = []
     for _ in range(draw(st.integers(2, 10))):
-        k = draw(st.sampled_from(["member", "member", "nested", "nested", "nested", "reparse", "kw", "default"]))
+        k = draw(st.sampled_from(["member", "member", "nested", "nested", "nested", "reparse", "kw", "default", "deep", "deep"]))
         ops.append([k, draw(st.integers(0, 1000)), draw(st.binary(min_size=40, max_size=40)).hex()])
     return {"defs": defs, "root": "Root", "cfg": cfg, "data": data.hex(), "wrapped": wrapped, "ops": ops}
 
@@ -92,6 +92,57 @@ def _leaf_paths(sem, t, prefix=(), depth=0):
         elif ft["k"] == "st" and ft["kind"] == "struct" and depth < 2:
             out += _leaf_paths(sem, ft, prefix + (f["name"],), depth + 1)
     return out
+
+
+def _deep_paths(sem, u):
+    """Assignable leaves below the top union whose attribute path crosses a union boundary (a nested union member, an
+    anonymous union, a union inside a structure member) or an anonymous top-level member.
+    -> [(attribute path, top member index, (member type, absolute offset), path inside that member, leaf field, unions crossed)]
+    where 'member' is the member of the DEEPEST union on the way: the write replaces exactly that member's bytes."""
+    out = []
+
+    def leafish(f, ft):
+        return bool(f.get("bits")) or ft["k"] in ("s", "e", "p")
+
+    def walk_struct(t, abs_off, lib_path, member, rel, top_i, crossed, depth, chain=()):
+        lay = sem.layout(t)
+        for i, f in enumerate(t["fields"]):
+            ft = sem.res(f["t"])
+            off = lay["offs"][i]
+            if off is None:
+                return
+            lp = lib_path + ((f["name"],) if f.get("name") else ())
+            rp = rel + (fkey(f, i),)
+            if leafish(f, ft):
+                if f.get("name") and not (ft["k"] == "s" and ft["n"] == "void"):
+                    out.append((lp, top_i, member, rp, f, crossed, chain))
+            elif ft["k"] == "st" and ft["kind"] == "struct" and depth < 4:
+                walk_struct(ft, abs_off + off, lp, member, rp, top_i, crossed, depth + 1, chain)
+            elif ft["k"] == "st" and ft["kind"] == "union" and depth < 4:
+                walk_union(ft, abs_off + off, lp, top_i, crossed + 1, depth + 1, chain + ((f["t"], abs_off + off),))
+
+    def walk_union(t, abs_off, lib_path, top_i, crossed, depth, chain=()):
+        for j, g in enumerate(t["fields"]):
+            gt = sem.res(g["t"])
+            a = abs_off + _off(g)
+            lp = lib_path + ((g["name"],) if g.get("name") else ())
+            if leafish(g, gt):
+                if g.get("name") and not (gt["k"] == "s" and gt["n"] == "void"):
+                    out.append((lp, top_i, (g["t"], a), (), g, crossed, chain))
+            elif gt["k"] == "st" and gt["kind"] == "struct" and depth < 4:
+                walk_struct(gt, a, lp, (g["t"], a), (), top_i, crossed, depth + 1, chain)
+            elif gt["k"] == "st" and gt["kind"] == "union" and depth < 4:
+                walk_union(gt, a, lp, top_i, crossed + 1, depth + 1, chain + ((g["t"], a),))
+
+    for i, f in enumerate(u["fields"]):
+        ft = sem.res(f["t"])
+        a = _off(f)
+        lp = (f["name"],) if f.get("name") else ()
+        if ft["k"] == "st" and ft["kind"] == "struct":
+            walk_struct(ft, a, lp, (f["t"], a), (), i, 0, 1)
+        elif ft["k"] == "st" and ft["kind"] == "union":
+            walk_union(ft, a, lp, i, 1, 1, ((f["t"], a),))
+    return [p_ for p_ in out if p_[5] >= 1 or not u["fields"][p_[1]].get("name")]
 
 
 def _src(raw, n):
@@ -305,6 +356,78 @@ def _run_model(case, m, mode, ctx=None):
             trace.append(["nested", ".".join(((f["name"],) if f.get("name") else ("<anon>",)) + path), repr(nv)[:40]])
             stats["assign_members"].add(i)
             stats["nested"] += 1
+        elif k == "deep":
+            cands = _deep_paths(sem, u)
+            if not cands:
+                continue
+            lp, top_i, (mt, ma), rel, leaf, crossed, chain = cands[sel % len(cands)]
+            if not lp:
+                continue
+            lt = sem.res(leaf["t"])
+            if leaf.get("bits"):
+                nv = int.from_bytes(raw[:8], "little") & ((1 << leaf["bits"]) - 1)
+            else:
+                try:
+                    nv, _ = sem.decode(leaf["t"], _src(raw, sem.size(leaf["t"])), 0)
+                except refsem.NonCanonical:
+                    continue
+            # model, step 1: the bytes of the member of the deepest union on the path are replaced
+            ideal = Model(case["defs"], case["cfg"], "ideal")
+            try:
+                mval, _ = sem.decode(mt, bytes(buf), ma)
+            except (refsem.NonCanonical, refsem.Short):
+                continue
+            if rel:
+                node = mval
+                for p in rel[:-1]:
+                    node = node[p]
+                node[rel[-1]] = nv
+            else:
+                mval = nv
+            tmp = bytearray(buf)
+            bm = ideal.enc(mt, mval)
+            tmp[ma : ma + len(bm)] = bm
+            # step 2: every enclosing NESTED union hands its bytes upwards through its writer, innermost first (under the
+            # ideal model these are the same bytes; under the writer-faithful model each level loses its blind spots)
+            if mode == "largest":
+                for ut, ua in reversed(chain):
+                    try:
+                        uval, _ = sem.decode(ut, bytes(tmp), ua)
+                    except (refsem.NonCanonical, refsem.Short):
+                        break
+                    ub = model.enc(ut, uval)
+                    tmp[ua : ua + len(ub)] = ub
+            topf = u["fields"][top_i]
+            try:
+                tval, _ = sem.decode(topf["t"], bytes(tmp), _off(topf))
+            except (refsem.NonCanonical, refsem.Short):
+                continue
+            # library side
+            holder = lu
+            for name in lp[:-1]:
+                holder = getattr(holder, name)
+            newobj = nv
+            if lt["k"] == "e" and not leaf.get("bits"):
+                hc = holder
+                while hasattr(hc, "__target__"):
+                    hc = hc.__target__
+                ftype = type(hc).fields[lp[-1]].type if lp[-1] in type(hc).fields else None
+                newobj = ftype(nv) if ftype is not None else nv
+            elif lt["k"] == "e":
+                hc = holder
+                while hasattr(hc, "__target__"):
+                    hc = hc.__target__
+                ftype = type(hc).fields[lp[-1]].type if lp[-1] in type(hc).fields else None
+                newobj = ftype(nv) if ftype is not None and hasattr(ftype, "__members__") else nv
+            r = lib(setattr, holder, lp[-1], newobj)
+            if isinstance(r, Err):
+                raise Violation("operation-raised", f"step {step} u.{'.'.join(lp)} = {nv!r}: {r}; history {trace}: {desc()}", r.where)
+            b = model.enc(topf["t"], tval)
+            buf[_off(topf) : _off(topf) + len(b)] = b
+            trace.append(["deep", ".".join(lp), repr(nv)[:40], f"crossing {crossed} union(s)"])
+            stats["assign_members"].add(top_i)
+            stats["nested"] += 1
+            stats["deep"] = stats.get("deep", 0) + 1
         else:
             continue
         stats["ops"] += 1
@@ -342,6 +465,8 @@ def run_case(case, ctx):
     ctx.count("ops", stats["ops"])
     if stats["nested"]:
         ctx.count("history:has-nested-assignment")
+    if stats.get("deep"):
+        ctx.count("history:has-assignment-across-a-union-boundary")
     if len(stats["assign_members"]) >= 2 and stats["nested"]:
         ctx.mark_nontrivial([case["defs"], case["cfg"], case["data"], case["ops"]])
         ctx.sample(common.describe(case, {"ops": [o[:2] for o in case["ops"]]}), "wrapped" if case["wrapped"] else "top")
